@@ -128,7 +128,11 @@ def gen_world(rng, shape=None, n=None, labels=None, directed_p=0.25, selfnbr_p=0
     if linked_p and rng.random() < linked_p:
         edges = [(names[a], names[b]) for a in range(n) for b in nbrs[a] if a != b]
         rng.shuffle(edges)
-        for e in edges[:2]:
+        if rng.random() < 0.6:
+            # prefer edges whose end node is also the end node of another edge (only one of them linked)
+            shared = [e for e in edges if any(f[1] == e[1] and f[0] != e[0] for f in edges)]
+            edges = shared + [e for e in edges if e not in shared]
+        for e in edges[:rng.choice([1, 2])]:
             others = [f for f in edges if f != e and len({e[0], e[1], f[0], f[1]}) == 4]
             if others:
                 f = rng.choice(others)
@@ -147,7 +151,8 @@ def world_index(world):
     return loc, nb
 
 
-def gen_trace(rng, world, nobs=None, noise=None, spacing=None, perturb=True, exact_p=0.1, half_grid=False):
+def gen_trace(rng, world, nobs=None, noise=None, spacing=None, perturb=True, exact_p=0.1, half_grid=False,
+              sparse=False, outlier_p=0.12):
     """A noisy sample of a walk through the directed graph (planar units)."""
     loc, nb = world_index(world)
     unit = world.get("unit", 1.0)
@@ -156,6 +161,12 @@ def gen_trace(rng, world, nobs=None, noise=None, spacing=None, perturb=True, exa
         nobs = rng.choice([1, 2, 2, 3, 3, 4, 4, 5, 5, 6, 7, 8])
     if noise is None:
         noise = rng.choice([0.0, 0.05, 0.15, 0.3, 0.5]) * unit
+    if sparse:
+        # observations several roads apart: the walk in between needs non-emitting states
+        if spacing is None:
+            spacing = rng.choice([2.5, 3.5, 5.0, 7.0]) * unit
+        if noise is None or noise > 0.3 * unit:
+            noise = rng.choice([0.0, 0.05, 0.15]) * unit
     if spacing is None:
         spacing = rng.choice([0.3, 0.6, 1.0, 1.5, 2.5, 4.0]) * unit
     cur = rng.choice(labels)
@@ -203,15 +214,15 @@ def gen_trace(rng, world, nobs=None, noise=None, spacing=None, perturb=True, exa
     if perturb and len(out) >= 2:
         r = rng.random()
         i = rng.randrange(len(out))
-        if r < 0.12:      # outlier
+        if r < outlier_p:      # outlier
             out[i] = [_r(out[i][0] + rng.choice([-1, 1]) * rng.uniform(4, 15) * unit, 4),
                       _r(out[i][1] + rng.choice([-1, 1]) * rng.uniform(4, 15) * unit, 4)]
-        elif r < 0.2:     # repeat
+        elif r < outlier_p + 0.08:     # repeat
             out.insert(i, list(out[i]))
-        elif r < 0.28:    # exactly on a node
+        elif r < outlier_p + 0.16:    # exactly on a node
             l = rng.choice(labels)
             out[i] = [loc[l][0], loc[l][1]]
-        elif r < 0.34 and len(out) >= 3:  # gap
+        elif r < outlier_p + 0.22 and len(out) >= 3:  # gap
             del out[i]
     return out
 
@@ -281,9 +292,11 @@ def gen_faults(rng, nops, kinds=("relist", "dup", "clock", "abort", "restart", "
     return f
 
 
-def gen_ops(rng, ntrace, cfg, profile):
-    """Operation list for a World-A session."""
+def gen_ops(rng, ntrace, cfg, profile, ntrace2=None):
+    """Operation list for a World-A session.  ntrace2: length of an alternative trace that may be
+    matched on the same matcher object (ops with "alt": true)."""
     unique = rng.random() < 0.4
+    n_main, cur_alt = ntrace, False
     if profile == "single":
         return [{"op": "match", "k": ntrace, "unique": unique}]
     ops = []
@@ -315,6 +328,8 @@ def gen_ops(rng, ntrace, cfg, profile):
             choices += ["rematch"]
             if profile == "anyops":
                 choices += ["cwd", "cwd", "match"]
+            if ntrace2:
+                choices += ["match_alt"]
             c = rng.choice(choices)
             if c == "extend":
                 k = rng.randint(k + 1, ntrace)
@@ -326,7 +341,19 @@ def gen_ops(rng, ntrace, cfg, profile):
                 ops.append({"op": "rematch", "k": k, "unique": unique})
             elif c == "match":
                 k = rng.randint(1, ntrace)
-                ops.append({"op": "match", "k": k, "unique": unique})
+                op = {"op": "match", "k": k, "unique": unique}
+                if cur_alt:
+                    op["alt"] = True
+                ops.append(op)
+            elif c == "match_alt":
+                # the same matcher object is used for another trace
+                cur_alt = not cur_alt
+                ntrace = ntrace2 if cur_alt else n_main
+                k = rng.randint(1, ntrace)
+                op = {"op": "match", "k": k, "unique": unique}
+                if cur_alt:
+                    op["alt"] = True
+                ops.append(op)
             elif c == "cwd":
                 ops.append({"op": "cwd", "kbest": rng.randint(1, 3), "nb_obs": rng.randint(1, 3),
                             "max_dist": rng.choice([None, 1.0, 3.0, 10.0]), "unique": unique})
